@@ -95,6 +95,7 @@ G0 == [role |-> "", ver |-> "", idw |-> 16,
        inUn |-> {},                       \* inbound QoS>0 ids not yet answered on this connection (C12e)
        peerRM |-> 0, ownRM |-> 0, peerTAM |-> 0, ownTAM |-> 0, peerMPS |-> NoLimit, ownMPS |-> NoLimit,
        rx |-> {}, aliasIn |-> {},         \* [a, t]: the receiver's table of what we sent / of what we received
+       twinOff |-> FALSE,                 \* the checked_send twin has diverged on this history (reported once, then ignored)
        aliasHist |-> {},                  \* every inbound binding [a, t] made on this connection - no clause reads it; it keeps
                                           \* "bound to t2, then re-bound to t1" apart from "bound to t1" in the model's state, so
                                           \* that both histories are continued (an implementation that misses the re-binding
@@ -612,6 +613,12 @@ ViolC17(g, prev, r, g2) ==
 NonRel(out) == SelectSeq(out, LAMBDA e : e.ev # "released")
 SameEvents(a, b) == NonRel(a) = NonRel(b) /\ RelSet(a) = RelSet(b)
 
+(* C11, last sentence: a twin object hands every packet to checked_send with its concrete type (where that type is
+   Sendable for the role at compile time): same events and same getters as send(), at every step *)
+ViolC11d(g, r) ==
+  IF r.shadow = "checked" /\ ~g.twinOff /\ ~r.panic /\ ~(SameEvents(r.out, r.outF) /\ r.obs = r.obsF /\ ~r.panicF)
+  THEN {"C11d-checked-send-differs-from-send"} ELSE {}
+
 ViolC10(g, prev, r, g2) ==
   LET (* a new session has started on this connection, or this very call is the CONNECT that asks for one
          (compared even when the reused object refuses it) *)
@@ -656,6 +663,7 @@ Resync(g2, r, v) ==
       seen == SeqToSet(r.dig.used)
   IN
   [g2 EXCEPT
+     !.twinOff = @ \/ "C11d-checked-send-differs-from-send" \in v,
      !.used = IF idv THEN seen \cup { x \in @ : x > 40 } ELSE @,
      !.held = IF idv THEN { x \in @ : x \in seen \/ x > 40 } ELSE @,
      !.handled = IF "C07c-handled-set" \in v THEN SeqToSet(r.obs.qos2) ELSE @,
@@ -670,7 +678,7 @@ Viol(P, g, prev, r, g2) ==
   \cup (IF "C07" \in P THEN ViolC07(g, prev, r, g2) ELSE {})
   \cup (IF "C08" \in P THEN ViolC08(g, prev, r, g2) ELSE {})
   \cup (IF "C10" \in P THEN ViolC10(g, prev, r, g2) ELSE {})
-  \cup (IF "C11" \in P THEN ViolC11(g, prev, r, g2) ELSE {})
+  \cup (IF "C11" \in P THEN ViolC11(g, prev, r, g2) \cup ViolC11d(g, r) ELSE {})
   \cup (IF "C12" \in P THEN ViolC12(g, prev, r, g2) ELSE {})
   \cup (IF "C13" \in P THEN ViolC13(g, prev, r, g2) ELSE {})
   \cup (IF "C14" \in P THEN ViolC14(g, prev, r, g2) ELSE {})
